@@ -18,13 +18,14 @@ def main():
     ap.add_argument("ids", nargs="*")
     ap.add_argument("--tier", default="quick")
     ap.add_argument("--checks", default=None)
+    ap.add_argument("--results", default=None, help="write results to this file instead of <dir>/RESULTS.json (for runs in parallel; merge afterwards)")
     ap.add_argument("--dir", default="seeded", help="seeded (breaking changes: an alarm is wanted) or benign (behaviour-preserving "
                     "refactorings kept in /verif/benign/<id>/: the checks must stay quiet)")
     a = ap.parse_args()
     sd = os.path.join(ROOT, a.dir)
     benign = a.dir == "benign"
     ids = a.ids or sorted(d for d in os.listdir(sd) if os.path.isfile(os.path.join(sd, d, "meta.json")))
-    resf = os.path.join(sd, "RESULTS.json")
+    resf = a.results or os.path.join(sd, "RESULTS.json")
     results = json.load(open(resf)) if os.path.exists(resf) else {}
     os.makedirs(os.path.join(ROOT, ".cache"), exist_ok=True)
     for sid in ids:
